@@ -1,0 +1,170 @@
+//go:build verif
+
+package schema
+
+// Accounting log for property C19 of the /verif framework (no blocked producer or
+// goroutine after a streaming run). Compiled only with the build tag `verif`; the twin
+// file verif_c19_off.go turns every call-site into an empty inlinable function.
+//
+// What is recorded while a log is active (VerifC19Start .. VerifC19Stop):
+//   copy         StreamReader.Copy(n) with n >= 2, with the chain of callers outside this package
+//   close        an outermost StreamReader.Close (one not called from inside this package), with callers
+//   child_new    copyStreamReaders created a parent with n children
+//   child_close  a child of a copy parent was closed (first close only)
+//   child_eof    the source of a copy parent reported io.EOF
+//   stream_new / stream_close_recv / stream_eof / stream_close_send   the same for channel-based streams
+//   mark         written by the harness through VerifC19Mark
+
+import (
+	"io"
+	"runtime"
+	"strings"
+	"sync"
+	"sync/atomic"
+)
+
+// VerifC19Event is one record of the accounting log.
+type VerifC19Event struct {
+	Kind   string `json:"kind"`
+	N      int    `json:"n,omitempty"`      // copy: copies requested; child_new: children; child_close: index; stream_new: capacity
+	ID     int    `json:"id,omitempty"`     // child_* / stream_*: number of the parent / stream within this log (from 1)
+	Origin string `json:"origin,omitempty"` // copy / close: callers outside package schema, innermost first, joined by "<"
+	Label  string `json:"label,omitempty"`  // mark
+}
+
+var verifC19 struct {
+	on  int32
+	mu  sync.Mutex
+	ev  []VerifC19Event
+	ids map[any]int
+}
+
+// VerifC19Start clears the log and switches recording on.
+func VerifC19Start() {
+	verifC19.mu.Lock()
+	verifC19.ev = nil
+	verifC19.ids = map[any]int{}
+	verifC19.mu.Unlock()
+	atomic.StoreInt32(&verifC19.on, 1)
+}
+
+// VerifC19Stop switches recording off and returns the log.
+func VerifC19Stop() []VerifC19Event {
+	atomic.StoreInt32(&verifC19.on, 0)
+	verifC19.mu.Lock()
+	ev := verifC19.ev
+	verifC19.ev = nil
+	verifC19.ids = nil
+	verifC19.mu.Unlock()
+	return ev
+}
+
+// VerifC19Snapshot returns a copy of the log so far without stopping it.
+func VerifC19Snapshot() []VerifC19Event {
+	verifC19.mu.Lock()
+	ev := append([]VerifC19Event(nil), verifC19.ev...)
+	verifC19.mu.Unlock()
+	return ev
+}
+
+// VerifC19Mark writes a harness-side event into the log (ordering reference).
+func VerifC19Mark(label string) {
+	if atomic.LoadInt32(&verifC19.on) == 0 {
+		return
+	}
+	verifC19.mu.Lock()
+	verifC19.ev = append(verifC19.ev, VerifC19Event{Kind: "mark", Label: label})
+	verifC19.mu.Unlock()
+}
+
+const verifC19Pkg = "github.com/cloudwego/eino/"
+
+// verifC19Callers returns whether the immediate caller of the hooked method lies outside
+// package schema, and the first few callers outside it (short names, innermost first).
+func verifC19Callers() (outermost bool, origin string) {
+	pcs := make([]uintptr, 24)
+	n := runtime.Callers(3, pcs) // 0 Callers, 1 verifC19Callers, 2 verifC19Copy/Close, 3 the hooked method
+	frames := runtime.CallersFrames(pcs[:n])
+	var out []string
+	idx := 0
+	for {
+		f, more := frames.Next()
+		name := f.Function
+		inSchema := strings.HasPrefix(name, verifC19Pkg+"schema.")
+		if idx == 1 { // the caller of the hooked method
+			outermost = !inSchema
+		}
+		if idx >= 1 && !inSchema && name != "" {
+			name = strings.TrimPrefix(name, verifC19Pkg)
+			if i := strings.Index(name, "["); i >= 0 { // drop type arguments
+				if j := strings.LastIndex(name, "]"); j > i {
+					name = name[:i] + name[j+1:]
+				}
+			}
+			out = append(out, name)
+		}
+		idx++
+		if !more || len(out) >= 5 {
+			break
+		}
+	}
+	return outermost, strings.Join(out, "<")
+}
+
+func verifC19Copy(n int) {
+	if atomic.LoadInt32(&verifC19.on) == 0 {
+		return
+	}
+	_, origin := verifC19Callers()
+	verifC19.mu.Lock()
+	verifC19.ev = append(verifC19.ev, VerifC19Event{Kind: "copy", N: n, Origin: origin})
+	verifC19.mu.Unlock()
+}
+
+func verifC19Close() {
+	if atomic.LoadInt32(&verifC19.on) == 0 {
+		return
+	}
+	outer, origin := verifC19Callers()
+	if !outer {
+		return
+	}
+	verifC19.mu.Lock()
+	verifC19.ev = append(verifC19.ev, VerifC19Event{Kind: "close", Origin: origin})
+	verifC19.mu.Unlock()
+}
+
+func verifC19Obj(kind string, obj any, n int) {
+	if atomic.LoadInt32(&verifC19.on) == 0 {
+		return
+	}
+	verifC19.mu.Lock()
+	if verifC19.ids != nil {
+		id, ok := verifC19.ids[obj]
+		if !ok {
+			id = len(verifC19.ids) + 1
+			verifC19.ids[obj] = id
+		}
+		verifC19.ev = append(verifC19.ev, VerifC19Event{Kind: kind, N: n, ID: id})
+	}
+	verifC19.mu.Unlock()
+}
+
+// copy parents: obj is the *parentStreamReader[T]
+func verifC19ChildNew(parent any, n int)     { verifC19Obj("child_new", parent, n) }
+func verifC19ChildClose(parent any, idx int) { verifC19Obj("child_close", parent, idx) }
+func verifC19ChildRecv(parent any, err error) {
+	if err == io.EOF {
+		verifC19Obj("child_eof", parent, 0)
+	}
+}
+
+// channel-based streams: obj is the *stream[T]
+func verifC19StreamNew(s any, capacity int) { verifC19Obj("stream_new", s, capacity) }
+func verifC19StreamCloseRecv(s any)         { verifC19Obj("stream_close_recv", s, 0) }
+func verifC19StreamCloseSend(s any)         { verifC19Obj("stream_close_send", s, 0) }
+func verifC19StreamRecv(s any, ok bool) {
+	if !ok {
+		verifC19Obj("stream_eof", s, 0)
+	}
+}
